@@ -105,3 +105,119 @@ def post_eval_residual(c, q):
 contract(f"{PI}._evaluate_policy",
     scenarios=[(f"{t}.{'reset' if r else 'carry'}.", setup_eval(t, r)) for t in ("span", "max_diff") for r in (False, True)],
     ensures={"returns_an_iterate_from_the_documented_start": post_eval, "break_means_small_residual": post_eval_residual})
+
+# ---------------- initial policy, solver-state initialisation, solve loop (C05 / C08 / C01 for policy iteration)
+from pyvc.interp import EXC
+from contracts.vi_solve import Greedy
+INITP = z3.Function("initial_policy", VEC, VEC)
+def with_initial_policy(Pb, has):
+    Pb.obj.attrs["__has_initial_policy"] = has
+    if has: Pb.obj.attrs["initial_policy"] = Builtin(lambda s: rowvec(INITP(as_vec(s)), AD), "initial_policy")
+    else:
+        def raising(s): raise PyRaise(EXC["NotImplementedError"], "No custom initial policy defined")
+        Pb.obj.attrs["initial_policy"] = Builtin(raising, "initial_policy")
+def immediate_greedy(svec):
+    return R.mk("argmax", NA, lambda a: R.mk("sum", NE, lambda e: TRr(svec, AC(a), EV(e)) * PR(svec, AC(a), EV(e))))
+def setup_initpol(has):
+    def setup(I):
+        s, Pb, dims, gamma = mk_pi(I); with_initial_policy(Pb, has)
+        I.call(I.getattr(s, "_setup_jax_functions"), [], {})
+        s.attrs.update({"batched_states": prepared(Pb, dims), "values": SArr((N,), lambda idx: 0, tag=("zeros",))})
+        return Ctx(self=s, _args=[], has=has, gamma=gamma)
+    return setup
+def post_initpol(c, q):
+    r = c.result
+    if not isinstance(r, SArr) or r.vec is None: return z3.BoolVal(False)
+    x = z3.Int("s!ip"); q.hyps += [x >= 0, x < N]
+    want = INITP(ST(x)) if c.has else AC(immediate_greedy(ST(x)))
+    return z3.And(toz3(r.shape[0]) == N, toz3(r.shape[1]) == AD, r.vec((x,)) == want)
+def ret_initpol(c):
+    has = c["self"].attrs["problem"].attrs["__has_initial_policy"]
+    return vec_array((N, AD), lambda l: INITP(ST(toz3(l[0]))) if has else AC(immediate_greedy(ST(toz3(l[0])))), name="initial_policy")
+contract(f"{PI}._initialize_policy", scenarios=[("problem_policy.", setup_initpol(True)), ("default.", setup_initpol(False))], returns=ret_initpol,
+    ensures={"first_policy": post_initpol})
+def setup_init_pi(has, reset):
+    def setup(I):
+        s, Pb, dims, gamma = mk_pi(I); with_initial_policy(Pb, has)
+        I.call(I.getattr(s, "_setup_jax_functions"), [], {})
+        s.attrs.update({"batched_states": prepared(Pb, dims), "config": Obj("cfg", {"reset_values_for_each_policy_eval": reset}, label="config")})
+        return Ctx(self=s, _args=[], has=has, reset=reset, gamma=gamma)
+    return setup
+def post_init_pi(c, q):
+    s = c.self; x = z3.Int("s!ii"); q.hyps += [x >= 0, x < N]
+    pol = s.attrs["policy"]; want = INITP(ST(x)) if c.has else AC(immediate_greedy(ST(x)))
+    ok = z3.And(toz3(s.attrs["iteration"]) == 0, toz3(s.attrs["values"].get((x,))) == INITV(ST(x)), pol.vec((x,)) == want)
+    if c.reset: ok = z3.And(ok, toz3(s.attrs["initial_values"].get((x,))) == INITV(ST(x)))
+    return ok
+contract(f"{PI}._initialize_solver_state_elements", scenarios=[(f"{'problem_policy' if h else 'default'}.{'reset' if r else 'carry'}.", setup_init_pi(h, r)) for h in (True, False) for r in (False, True)],
+    ensures={"policy_evaluated_first_values_initial_iteration_zero": post_init_pi})
+
+# ---- solve: ghost trajectories of policies and evaluated values; _iteration_step enters through its contract
+PPOL = z3.Function("PPOL", I_, I_, VEC)          # policy row of state s after k iterations
+PVAL = z3.Function("PVAL", I_, I_, R_)           # values after k iterations (result of the k-th evaluation)
+PCH = z3.Function("PCHANGED", I_, I_)            # n_changed of iteration k
+EVCONV = z3.Function("EVAL_CONVERGED", I_, z3.BoolSort())   # ghost: the k-th policy evaluation left its loop by `break`
+def ppol(k): return vec_array((N, AD), lambda l, k=k: PPOL(toz3(k), toz3(l[0])), name="policy")
+def pval(k): return SArr((N,), lambda idx, k=k: PVAL(toz3(k), toz3(idx[0])))
+def newp_of(c, k1): return lambda s: AC(Greedy(pval(toz3(k1)), c.gamma, ST(s)))
+def def_ppol(c, k1, x):
+    """definition instance: the policy after iteration k1 >= n0+1 is the greedy policy of the values evaluated in that iteration (_iteration_step.post.new_policy_greedy)"""
+    return PPOL(toz3(k1), x) == newp_of(c, k1)(x)
+def def_pch(c, k1):
+    """definition: n_changed of iteration k1 counts the states whose action vector differs in any component (_iteration_step.post.n_changed_counts_any_component)"""
+    newp = newp_of(c, k1)
+    return PCH(toz3(k1)) == R.mk("count", N, lambda s: R.mk("any", AD, lambda j: COMP(newp(s), j) != COMP(PPOL(toz3(k1) - 1, s), j)))
+def pi_defs(c, k): return [def_pch(c, toz3(k) + 1)]
+def setup_pi_solve(I):
+    s, Pb, dims, gamma = mk_pi(I)
+    I.call(I.getattr(s, "_setup_jax_functions"), [], {})
+    n0, maxit, f = z3.Ints("n0 max_iterations checkpoint_frequency")
+    I.assume(z3.And(n0 >= 0, maxit >= 1, f >= 0, gamma > 0, gamma <= 1))
+    s.attrs.update({"iteration": n0, "values": pval(n0), "policy": ppol(n0), "batched_states": prepared(Pb, dims), "checkpoint_frequency": f,
+                    "checkpoint_manager": Obj("CheckpointManager", {}, label="CM")})
+    I.ghost["saves"] = []
+    c = Ctx(self=s, _args=[maxit], n0=n0, maxit=maxit, gamma=gamma, f=f, I=I, cur=[n0])
+    def ret_step(cc):
+        k = c.cur[0]                      # iteration counter before this step (ghost)
+        return (vec_array((N, AD), lambda l: AC(Greedy(pval(toz3(k) + 1), gamma, ST(toz3(l[0])))), name="new_policy"), PCH(toz3(k) + 1))
+    def eff_step(I_, cc):
+        k = c.cur[0]; s_ = cc["self"]; I_.note_write(s_, "values"); s_.attrs["values"] = pval(toz3(k) + 1)
+    contract(f"{PI}._iteration_step", returns=ret_step, effects=eff_step, ensures={}, setup=None)
+    return c
+def havoc_pi(I, env, c, k):
+    s = c.self; it = c.n0 + k; c.cur[0] = it
+    s.attrs["iteration"] = it; s.attrs["values"] = pval(it); s.attrs["policy"] = ppol(it)
+    env["n_changed"] = PCH(it); env["new_policy"] = ppol(it)
+    j = z3.Int("%jinv")
+    return [z3.ForAll([j], z3.Implies(z3.And(j > c.n0, j <= it), PCH(j) != 0))] + pi_defs(c, it)
+def check_pi(c, env, k, q):
+    s = c.self; it = c.n0 + k
+    goals = {"iteration": toz3(s.attrs["iteration"]) == it,
+             "values": q.forall(0, N, lambda x: toz3(s.attrs["values"].get((x,))) == PVAL(it, x)),
+             "policy": (lambda x: (q.hyps.extend([x >= 0, x < N] + ([def_ppol(c, it, x)] if not z3.is_true(z3.simplify(toz3(k) == 0)) else [])), s.attrs["policy"].vec((x,)) == PPOL(it, x))[1])(z3.Int("s!lp")),
+             "no_earlier_stop": q.forall(c.n0 + 1, it + 1, lambda j: PCH(j) != 0, name="j")}
+    if not z3.is_true(z3.simplify(toz3(k) == 0)): goals["n_changed_is_count"] = toz3(env["n_changed"]) == PCH(it)
+    return goals
+LoopSpec(f"{PI}.solve", 0, havoc_pi, check_pi, modifies={"self.iteration", "self.values", "self.policy", "n_changed", "new_policy"})
+def post_pi_stop(c, q):
+    it = toz3(c.self.attrs["iteration"])
+    return z3.And(it - c.n0 <= c.maxit, it - c.n0 >= 1, q.forall(c.n0 + 1, it, lambda j: PCH(j) != 0, name="j"), z3.Or(PCH(it) == 0, it == c.n0 + c.maxit))
+def post_pi_greedy(c, q):
+    """the returned policy is greedy with respect to the returned values (always: the policy stored is the improvement of the evaluated values)"""
+    s = c.self; it = toz3(s.attrs["iteration"]); x = z3.Int("s!pg"); q.hyps += [x >= 0, x < N]
+    q.hyps.append(def_ppol(c, it, x))             # it >= n0 + 1 on every exit path (max_iterations >= 1)
+    return s.attrs["policy"].vec((x,)) == AC(Greedy(s.attrs["values"], c.gamma, ST(x)))
+def post_pi_stable(c, q):
+    """stopping before the limit means no state's action vector changed in any component: new policy == previous policy, componentwise"""
+    s = c.self; it = toz3(s.attrs["iteration"]); x, j = z3.Int("s!ps"), z3.Int("j!ps"); q.hyps += [x >= 0, x < N, j >= 0, j < AD]
+    q.hyps += [def_pch(c, it)]
+    cnt = R.mk("count", N, lambda s_: R.mk("any", AD, lambda jj: COMP(AC(Greedy(pval(it), c.gamma, ST(s_))), jj) != COMP(PPOL(it - 1, s_), jj)))
+    allsame = R.mk("all", N, lambda s_: R.mk("all", AD, lambda jj: COMP(AC(Greedy(pval(it), c.gamma, ST(s_))), jj) == COMP(PPOL(it - 1, s_), jj)))
+    return z3.Implies(z3.And(PCH(it) == 0, it > c.n0), allsame)
+def post_pi_evalconv(c, q):
+    """needed by the a-priori bound (Lean pi_bound / eval_bound): on the 'policy converged' path the last evaluation met its stopping test"""
+    it = toz3(c.self.attrs["iteration"])
+    return z3.Implies(PCH(it) == 0, EVCONV(it))
+contract(f"{PI}.solve", setup=setup_pi_solve,
+    ensures={"stop_rule_policy_stability": post_pi_stop, "returned_policy_greedy_for_returned_values": post_pi_greedy,
+             "early_stop_means_no_component_changed": post_pi_stable, "eval_converged_when_policy_declared_stable": post_pi_evalconv})
